@@ -143,7 +143,125 @@ def gen_consts():
     return '\n'.join(out)
 
 
-GENERATORS = {'Consts.v': gen_consts}
+# ------------------------------------------------------------ EntryPoints --
+def gen_entrypoints():
+    init = parse('__init__.py')
+    eps = []
+    renderers = []
+    ends = []
+    objs = []
+    for name in ('pformat', 'pprint', 'cpprint'):
+        fn = find_func(init, name)
+        calls = walk_find(fn, lambda n: isinstance(n, ast.Call) and isinstance(n.func, ast.Name)
+                          and n.func.id == 'python_to_sdocs')
+        need(len(calls) == 1, '%s: exactly one call of python_to_sdocs' % name)
+        c = calls[0]
+        need(len(c.args) == 1 and isinstance(c.args[0], ast.Name), '%s: python_to_sdocs(<name>, **...)' % name)
+        objs.append((name, c.args[0].id == fn.args.args[0].arg and fn.args.args[0].arg == 'object'))
+        need(len(c.keywords) == 1 and c.keywords[0].arg is None and isinstance(c.keywords[0].value, ast.Call)
+             and isinstance(c.keywords[0].value.func, ast.Name)
+             and c.keywords[0].value.func.id == '_merge_defaults' and not c.keywords[0].value.args,
+             '%s: python_to_sdocs(object, **_merge_defaults(k=v, ...))' % name)
+        pl = []
+        for kw in c.keywords[0].value.keywords:
+            need(kw.arg is not None and isinstance(kw.value, ast.Name), '%s: _merge_defaults(k=<parameter>)' % name)
+            pl.append((kw.arg, kw.value.id))
+        params = {a.arg for a in fn.args.args + fn.args.kwonlyargs}
+        need(all(v in params for _k, v in pl), '%s: merged values are parameters' % name)
+        eps.append((name, pl))
+        rcalls = walk_find(fn, lambda n: isinstance(n, ast.Call) and isinstance(n.func, ast.Name)
+                           and n.func.id in ('default_render_to_stream', 'colored_render_to_stream'))
+        need(len(rcalls) == 1 and len(rcalls[0].args) == 2 and all(isinstance(a, ast.Name) for a in rcalls[0].args)
+             and [a.id for a in rcalls[0].args] == ['stream', 'sdocs'], '%s: <renderer>(stream, sdocs, ...)' % name)
+        renderers.append((name, rcalls[0].func.id))
+        endifs = [n for n in fn.body if isinstance(n, ast.If) and isinstance(n.test, ast.Name) and n.test.id == 'end']
+        if name == 'pformat':
+            need(not endifs, 'pformat: no end handling')
+            ret = fn.body[-1]
+            need(isinstance(ret, ast.Return) and ast.dump(ret.value) == ast.dump(
+                ast.parse('stream.getvalue()', mode='eval').body), 'pformat: return stream.getvalue()')
+            ends.append((name, False))
+        else:
+            need(len(endifs) == 1 and ast.dump(endifs[0].body[0]) == ast.dump(
+                ast.parse('stream.write(end)').body[0]) and fn.body[-1] is endifs[0],
+                '%s: if end: stream.write(end) as the last statement' % name)
+            ends.append((name, True))
+    # _merge_defaults
+    md = find_func(init, '_merge_defaults')
+    expect = ast.parse(
+        "def _merge_defaults(*, indent, width, depth, ribbon_width, max_seq_len, sort_dict_keys):\n"
+        "    kwargs = locals()\n"
+        "    return {key: kwargs[key] if kwargs[key] is not _UNSET_SENTINEL else default\n"
+        "            for key, default in _default_config.items()}\n").body[0]
+    need(ast.dump(md) == ast.dump(expect), '_merge_defaults has the sentinel-merge shape')
+    # set_default_config
+    sd = find_func(init, 'set_default_config')
+    sets = []
+    for n in sd.body:
+        if isinstance(n, ast.If) and isinstance(n.test, ast.Compare) and isinstance(n.test.ops[0], ast.IsNot) \
+                and isinstance(n.test.left, ast.Name) and isinstance(n.test.comparators[0], ast.Name) \
+                and n.test.comparators[0].id == '_UNSET_SENTINEL':
+            param = n.test.left.id
+            need(len(n.body) == 1 and not n.orelse, 'set_default_config: single-statement if for %s' % param)
+            st = n.body[0]
+            if param == 'style':
+                continue
+            need(isinstance(st, ast.Assign) and isinstance(st.targets[0], ast.Subscript)
+                 and isinstance(st.targets[0].value, ast.Name) and st.targets[0].value.id == 'new_defaults'
+                 and isinstance(st.targets[0].slice, ast.Constant) and isinstance(st.value, ast.Name),
+                 "set_default_config: new_defaults['K'] = <parameter>")
+            sets.append((st.value.id, st.targets[0].slice.value))
+            need(st.value.id == param, 'set_default_config: tests and stores the same parameter (%s)' % param)
+    need(ast.dump(find_assign(sd.body, 'new_defaults')) == ast.dump(ast.parse('{**_default_config}', mode='eval').body),
+         'set_default_config: new_defaults = {**_default_config}')
+    need(ast.dump(find_assign(sd.body, '_default_config')) == ast.dump(ast.parse('new_defaults', mode='eval').body),
+         'set_default_config: _default_config = new_defaults')
+    gd = find_func(init, 'get_default_config')
+    need(ast.dump(gd.body[-1]) == ast.dump(ast.parse('return MappingProxyType(_default_config)').body[0])
+         if False else isinstance(gd.body[-1], ast.Return) and ast.dump(gd.body[-1].value) == ast.dump(
+             ast.parse('MappingProxyType(_default_config)', mode='eval').body),
+         'get_default_config: return MappingProxyType(_default_config)')
+
+    # PrettyPrinter shim
+    def forwards(method, target):
+        fn = find_func(init, method, cls='PrettyPrinter')
+        calls = walk_find(fn, lambda n: isinstance(n, ast.Call) and isinstance(n.func, ast.Name)
+                          and n.func.id == target)
+        need(len(calls) == 1, 'PrettyPrinter.%s calls %s once' % (method, target))
+        c = calls[0]
+        ok = len(c.args) == 2 and isinstance(c.args[0], ast.Name) and c.args[0].id == fn.args.args[1].arg \
+            and isinstance(c.args[1], ast.Starred) and ast.dump(c.args[1].value) == ast.dump(
+                ast.parse('self._args', mode='eval').body) \
+            and len(c.keywords) == 1 and c.keywords[0].arg is None and ast.dump(c.keywords[0].value) == ast.dump(
+                ast.parse('self._kwargs', mode='eval').body)
+        if method == 'pformat':
+            ok = ok and isinstance(fn.body[-1], ast.Return) and fn.body[-1].value is c
+        return ok
+    pr = find_func(init, 'pretty_repr')
+    pr_ok = isinstance(pr.body[-1], ast.Return) and ast.dump(pr.body[-1].value) == ast.dump(
+        ast.parse('pformat(instance)', mode='eval').body)
+
+    def pairs(l):
+        return '[' + '; '.join('(%s, %s)' % (coq_string(a), coq_string(b)) for a, b in l) + ']'
+
+    def bools(l):
+        return '[' + '; '.join('(%s, %s)' % (coq_string(a), 'true' if b else 'false') for a, b in l) + ']'
+    out = ['(* GENERATED by harness/translate.py from /repo/prettyprinter/__init__.py - do not edit *)',
+           'From Coq Require Import List String.', 'Import ListNotations.', 'Open Scope string_scope.',
+           'Definition entry_points : list (string * list (string * string)) :=',
+           '  [' + ';\n   '.join('(%s, %s)' % (coq_string(n), pairs(pl)) for n, pl in eps) + '].',
+           'Definition ep_passes_object : list (string * bool) := %s.' % bools(objs),
+           'Definition ep_renderer : list (string * string) := %s.' % pairs(renderers),
+           'Definition ep_writes_end : list (string * bool) := %s.' % bools(ends),
+           'Definition set_default_plumbing : list (string * string) := %s.' % pairs(sets),
+           'Definition pp_pformat_forwards : bool := %s.' % ('true' if forwards('pformat', 'pformat') else 'false'),
+           'Definition pp_pprint_forwards : bool := %s.' % ('true' if forwards('pprint', 'pprint') else 'false'),
+           'Definition pretty_repr_is_pformat : bool := %s.' % ('true' if pr_ok else 'false'),
+           '']
+    return '\n'.join(out)
+
+
+GENERATORS = {'Consts.v': gen_consts, 'EntryPoints.v': gen_entrypoints}
 
 
 def generate():
